@@ -192,21 +192,29 @@ def exec_check(res, a, desc, rng, case, jac=False):
         y["IDX_TGAS"] = Fraction(100)
         kh = [Fraction(rng.randint(1, 8), 8) for _ in a.info.heating]
         kc = [Fraction(rng.randint(1, 8), 8) for _ in a.info.cooling]
-        cases.append(([k[l] for l in range(len(a.info.reactions))], kh, kc, [y[f"IDX_{al}"] for al in a.aliases] + ([y["IDX_TGAS"]] if thermal else [])))
-        exact.append((k, y))
+        # every case twice: the abundances and their double (temperature slot unchanged); the cuSPARSE kernels get each pair as
+        # one batch of two systems
+        for y_ in (y, {n_: (v if n_ == "IDX_TGAS" else 2 * v) for n_, v in y.items()}):
+            cases.append(([k[l] for l in range(len(a.info.reactions))], kh, kc, [y_[f"IDX_{al}"] for al in a.aliases] + ([y_["IDX_TGAS"]] if thermal else [])))
+            exact.append((k, y_))
     # Odeint: the coefficients are literals of the rendered EvalRates (one of its own per reaction), the same in both cases
     ko = {l: Fraction(l % 13 + 3, 16) for l in range(nre)}
-    methods = ["dense", "sparse"] + ([] if (desc.get("rate_modifier") or desc.get("tmin") or desc.get("tmax")) else ["odeint"])
-    preps = [ol.prep_odeint(desc, [ko[l] for l in range(len(a.info.reactions))]) if m == "odeint" else ol.prep_fexjac(desc, m) for m in methods]
+    methods = ["dense", "sparse", "cusparse"] + ([] if (desc.get("rate_modifier") or desc.get("tmin") or desc.get("tmax")) else ["odeint"])
+    preps = [ol.prep_odeint(desc, [ko[l] for l in range(len(a.info.reactions))]) if m == "odeint" else
+             ol.prep_cusparse(desc) if m == "cusparse" else ol.prep_fexjac(desc, m) for m in methods]
     diags = ol.compile_all([c for c, _ in preps])
     exact_cv = exact
     for method, (_, exe), diag in zip(methods, preps, diags):
-        where = f"channel C ({'odeint' if method == 'odeint' else 'cvode/' + method}, compiled)"
+        where = f"channel C ({'odeint' if method == 'odeint' else 'cvode/' + method}, compiled{' for the host, batch of two systems' if method == 'cusparse' else ''})"
         out = None
         if diag is None:
             if method == "odeint":
                 exact = [(ko, y) for _, y in exact_cv]
                 out, diag = ol.run_fexjac(exe, [c[3] for c in cases])
+            elif method == "cusparse":
+                exact = exact_cv
+                rows = [list(c0[0]) + list(c0[1]) + list(c0[2]) + list(c0[3]) + list(c1[3]) for c0, c1 in zip(cases[0::2], cases[1::2])]
+                out, diag = ol.run_fexjac(exe, rows, per_case=2)
             else:
                 exact = exact_cv
                 out, diag = ol.run_fexjac(exe, [[x for part in c for x in part] for c in cases])
@@ -215,6 +223,28 @@ def exec_check(res, a, desc, rng, case, jac=False):
             res.violation("correspondence", f"{where}: {diag}", case)
             return
         res.count(f"executed:{method}")
+        if method == "dense":
+            dense_out = out
+        elif thermal and method != "odeint":
+            # the temperature row: every CVODE layout computes it from the same abundances with the same coefficients, so it must
+            # be the value the dense back-end computes (whose text is checked against the formula in channel B); in a batch, from
+            # the abundances of the system it belongs to
+            n_ = len(a.species)
+            for ci, (o, od) in enumerate(zip(out, dense_out)):
+                same = lambda u, v: (u == v) or abs(u - v) <= 1e-12 * max(abs(u), abs(v)) or (u != u and v != v)
+                bad = None
+                if not jac and not same(o["F"][n_], od["F"][n_]):
+                    bad = f"the temperature derivative computes to {o['F'][n_]!r}, the dense back-end gives {od['F'][n_]!r}"
+                elif jac:
+                    for r_, c_ in [(n_, c) for c in range(n_ + 1)] + [(r, n_) for r in range(n_)]:
+                        if not same(o["J"][r_][c_], od["J"][r_][c_]):
+                            bad = f"Jacobian entry ({r_},{c_}) of the temperature row / column computes to {o['J'][r_][c_]!r}, the dense back-end gives {od['J'][r_][c_]!r}"
+                            break
+                if bad:
+                    k, y = exact[ci]
+                    res.violation("oracle", f"{where}: {'system ' + str(ci % 2) + ' of the batch: ' if method == 'cusparse' else ''}{bad} for the same abundances "
+                                  f"y = {[float(v) for v in list(y.values())[:6]]}", dict(case, k=[str(k[l]) for l in sorted(k)], y={m_: str(v) for m_, v in y.items()}))
+                    return
         for (k, y), o in zip(exact, out):
             env = make_env(a, rng)
             env["k"], env["y"], env["y_cur"] = k, y, y
